@@ -735,6 +735,7 @@ func main() {
 				for _, pin := range []int{0, n - 1, n} {
 					w.Put(runAtRest(rng, n, q, pin, (n+q+pin+rep)%2 == 0))
 				}
+				w.Put(runAtRest(rng, n, q, n, false)) // every worker pinned and every lane filled to the brim: the upper bound of PendingTask
 			}
 		}
 		for _, n := range []int{2, 3} {
